@@ -87,7 +87,7 @@ func (x *Exec) raceCheck(fr *Frame, st *State, in ssa.Instruction, p Val, write 
 		return
 	}
 	fname := p.FV.Name()
-	if st.fresh[p.T.S] {
+	if st.fresh[rootRefText(p.T.S)] {
 		return
 	}
 	if mu, ok := ts.GuardedBy[fname]; ok {
@@ -138,7 +138,7 @@ func (x *Exec) mapAccessCheck(fr *Frame, st *State, in ssa.Instruction, m Val, w
 		return
 	}
 	g, ok := st.guards[m.T.S]
-	if !ok || st.fresh[m.T.S] || st.fresh[g.owner.S] {
+	if !ok || st.fresh[m.T.S] || st.fresh[rootRefText(g.owner.S)] {
 		return
 	}
 	kind := "race-read"
@@ -244,4 +244,16 @@ func (x *Exec) collectEntryHeld(fr *Frame, st *State) {
 			x.entryHeld[arr] = append(x.entryHeld[arr], owner)
 		}
 	}
+}
+
+// rootRefText strips sub-object selectors: (v_sub.T.f r) -> r.
+func rootRefText(s string) string {
+	for strings.HasPrefix(s, "(v_sub.") && strings.HasSuffix(s, ")") {
+		i := strings.Index(s, " ")
+		if i < 0 {
+			break
+		}
+		s = s[i+1 : len(s)-1]
+	}
+	return s
 }
